@@ -37,6 +37,51 @@ var baseAssumptions = []string{
 var regress = job{name: "regress", run: "^TestRegress$"}
 
 var props = map[string]*prop{
+	"C01": {
+		level: "exploration", exhaustive: false,
+		jobs: []job{
+			regress,
+			{name: "table", run: "^TestC01_Table$"},
+			{name: "random", run: "^TestC01_Random$", shards: [2]int{2, 16}, checks: [2]int{15000, 400000}},
+		},
+		assumptions: baseAssumptions,
+	},
+	"C02": {
+		level: "exploration",
+		jobs: []job{
+			regress,
+			{name: "table", run: "^TestC02_Table$", shards: [2]int{4, 16}},
+			{name: "random", run: "^TestC02_Random$", shards: [2]int{2, 16}, checks: [2]int{15000, 400000}},
+		},
+		assumptions: baseAssumptions,
+	},
+	"C05": {
+		level: "exploration",
+		jobs: []job{
+			regress,
+			{name: "table", run: "^TestC05_Table$", shards: [2]int{2, 16}},
+			{name: "flips", run: "^TestC05_Flips$", shards: [2]int{4, 16}, checks: [2]int{100, 5000}},
+		},
+		assumptions: baseAssumptions,
+	},
+	"C08": {
+		level: "exploration", exhaustive: true,
+		jobs: []job{
+			regress,
+			{name: "list", run: "^TestC08_List$", shards: [2]int{1, 10}},
+			{name: "back", run: "^TestC08_Back$", shards: [2]int{4, 16}},
+		},
+		assumptions: baseAssumptions,
+	},
+	"C09": {
+		level: "exploration", exhaustive: true,
+		jobs: []job{
+			regress,
+			{name: "range", run: "^TestC09_Range$", shards: [2]int{1, 16}},
+			{name: "random", run: "^TestC09_Random$", shards: [2]int{1, 16}, checks: [2]int{20000, 300000}},
+		},
+		assumptions: baseAssumptions,
+	},
 	"C16": {
 		level: "exploration", exhaustive: true,
 		jobs: []job{
